@@ -23,8 +23,11 @@ RULE = ("every entry point (OVF, VBox, PVS, Parallels DiskDescriptor.xml) x ever
         "declared-but-unused entities, external DTD subsets, DOCTYPEs without entities, benign) x prolog variants (plain, comment or "
         "PI with tag-like text before the DOCTYPE, UTF-8 BOM, leading newlines after the declaration, str vs bytes input); "
         "expected: refuse (raise, no foreign open / connect, within the watchdog) iff the document declares or references an "
-        "entity; otherwise parse to the generator's content. Non-trivial = the document carries a DOCTYPE; distinct "
-        "(entry, kind, variant).")
+        "entity; otherwise parse to the generator's content. Plus, per entry point, documents without DOCTYPE in six spelling styles "
+        "(gen_configs.Enc: decimal / hex character references with leading zeros, numeric & and <, predefined entities, CDATA sections "
+        "incl. split ]]>, mixed with comments / PIs carrying & and DOCTYPE / ENTITY look-alikes inside character data) over media names "
+        "that contain & < > quotes ]]> CR/LF/TAB non-ASCII and reference-looking text: must parse to the logical strings. "
+        "Non-trivial = the document carries a DOCTYPE or uses a non-literal spelling; distinct (entry, kind, variant).")
 ASSUMPTIONS = ["expat and defusedxml internals are trusted (the model is the decision logic over the event stream; the runtime shows "
                "the library honours it)", "the event stream given to the model is produced by pyexpat on the harness side and cut at "
                "the first entity event", "for parsed documents the content answer of the model is the construction truth (content is C18's model)"]
@@ -112,11 +115,24 @@ def generate(seed, tier):
                 cases.append({"id": f"{rd}-{hc['name']}-{v}-{len(cases)}", "recipe": {"entry": hc["entry"], "kind": hc["kind"], "seed": hc["seed"],
                                                                                    "benign": hc["kind"].startswith("stripped_"), "variant": v},
                               "queries": ["parse"]})
+        # documents without any DOCTYPE whose values use the other spellings XML has for a string: decimal / hexadecimal character
+        # references, predefined entities, CDATA sections (with & < ]] inside), comments and PIs with & and DOCTYPE-looking text in
+        # the middle of character data; media names that contain & < > quotes ]]> non-ASCII and reference-looking text literally
+        for hc in gen_configs.spelled_cases(rng, per=3 if tier == "quick" else 6):
+            for v in ["plain"] + rng.sample(VARIANTS[1:], 2 if tier == "quick" else 5):
+                if hc["entry"] == "hdd_descriptor" and v.endswith("bytes") and v != "bom_bytes":
+                    continue
+                cases.append({"id": f"{rd}-{hc['name']}-{v}-{len(cases)}", "recipe": {"entry": hc["entry"], "kind": hc["kind"], "seed": hc["seed"],
+                                                                                   "benign": False, "variant": v, "slot": hc["slot"]},
+                              "queries": ["parse"]})
     return cases
 
 
 def _case_doc(case):
     r = case["recipe"]
+    if r["kind"].startswith("spelled_"):
+        xml, truth = gen_configs._body(r["entry"], r["seed"], r["slot"], None, enc_style=r["kind"][len("spelled_"):])
+        return apply_variant(xml, r["variant"]), truth, "parse", False
     rng = random.Random(0)
     kinds = {k[0]: k for k in gen_configs.dtd_kinds(random.Random(r["seed"]))}
     kind = r["kind"][len("stripped_"):] if r["benign"] else r["kind"]
@@ -134,8 +150,11 @@ def canon(v) -> str:
 def build(case):
     doc, truth, expect, has_dt = _case_doc(case)
     t = ["E"] if expect == "refuse" else ["P", canon(truth)]
-    b = Built({}, t, {"branches": [case["recipe"]["entry"], expect, "variant-" + case["recipe"]["variant"]] + (["doctype"] if has_dt else []),
-                      "in_scope": True, "has_doctype": has_dt})
+    kind = case["recipe"]["kind"]
+    spelled = kind.startswith("spelled_")
+    b = Built({}, t, {"branches": [case["recipe"]["entry"], expect, "variant-" + case["recipe"]["variant"]] + (["doctype"] if has_dt else [])
+                      + ([kind, case["recipe"]["entry"] + "/" + kind] if spelled else []),
+                      "in_scope": True, "has_doctype": has_dt, "spelled": spelled and ("&#" in str(doc) or "<![CDATA[" in str(doc) or isinstance(doc, bytes))})
     b.doc = doc
     return b
 
@@ -225,7 +244,7 @@ def model_parse(case, built, out):
 
 
 def nontrivial(case, built, model):
-    return built.info["has_doctype"]
+    return built.info["has_doctype"] or built.info.get("spelled", False)
 
 
 def search(seed, broken, budget):
